@@ -1,0 +1,41 @@
+//go:build verif
+
+// Contracts for govc (see /verif/DESIGN.md). Comment-only file.
+
+package queue
+
+//@ property C17
+
+// oldestAt(pq, j): no earlier queued element belongs to the same transaction
+//@ spec oldestAt(pq *PriorityQueue, j int) bool = forall m :: 0 <= m && m < j ==> pq.items[m].tran != pq.items[j].tran
+
+//@ func (pq *PriorityQueue) isOldest(i, e) (r)
+//@   requires pq != nil && 0 <= i && i <= len(pq.items) && e != nil
+//@   ensures! def: r <==> forall j :: 0 <= j && j < i ==> pq.items[j].tran != e.tran
+//@   loop 0 invariant 0 <= j && j < i && forall k :: 0 <= k && k < j ==> pq.items[k].tran != e.tran
+//@   loop 0 decreases i - j
+
+// Put (guard true: the queue is not full; a blocked producer waits until it is)
+//@ func (pq *PriorityQueue) Put(priority, tran, value)
+//@   requires pq != nil && len(pq.items) < 8
+//@   modifies pq.items, elems(pq.items)
+//@   ensures! appended: len(pq.items) == old(len(pq.items)) + 1
+//@   ensures! prefix: forall k :: 0 <= k && k < old(len(pq.items)) ==> pq.items[k] == old(pq.items[k])
+//@   ensures! last: pq.items[old(len(pq.items))].priority == priority && pq.items[old(len(pq.items))].tran == tran && pq.items[old(len(pq.items))].value == value
+//@   loop 0 unroll 1
+
+// Get (guard true: the queue is not empty). b is the index delivered.
+//@ func (pq *PriorityQueue) Get() (v)
+//@   requires pq != nil && len(pq.items) >= 1
+//@   modifies pq.items, elems(pq.items)
+//@   ghost b int = bestIdx
+//@   ensures! index: 0 <= b && b < old(len(pq.items)) && v == old(pq.items[b].value)
+//@   ensures! per_tran_fifo: old(oldestAt(pq, b))
+//@   ensures! max_priority: forall j :: 0 <= j && j < old(len(pq.items)) && old(oldestAt(pq, j)) ==> old(pq.items[j].priority) <= old(pq.items[b].priority)
+//@   ensures! earliest_of_max: forall j :: 0 <= j && j < b && old(oldestAt(pq, j)) ==> old(pq.items[j].priority) < old(pq.items[b].priority)
+//@   ensures! exactly_once: len(pq.items) == old(len(pq.items)) - 1 && (forall k :: 0 <= k && k < b ==> pq.items[k] == old(pq.items[k])) && (forall k :: b <= k && k < len(pq.items) ==> pq.items[k] == old(pq.items[k + 1]))
+//@   loop 0 unroll 1
+//@   loop 1 invariant 1 <= i && i <= len(pq.items) && 0 <= bestIdx && bestIdx < i && bestPriority == pq.items[bestIdx].priority && oldestAt(pq, bestIdx)
+//@   loop 1 invariant forall j :: 0 <= j && j < i && oldestAt(pq, j) ==> pq.items[j].priority <= bestPriority
+//@   loop 1 invariant forall j :: 0 <= j && j < bestIdx && oldestAt(pq, j) ==> pq.items[j].priority < bestPriority
+//@   loop 1 decreases len(pq.items) - i
